@@ -403,3 +403,45 @@ func HarnessC01Content() {
 	svReach("rendered")
 	hxCheckTree(root, specs)
 }
+
+var hxLongLens = []int{74, 75, 76, 77, 78, 996, 997, 998, 999, 1000, 1001, 2100}
+
+// L3: content with one long line around the limits at which a writer might
+// change its behaviour (76-character encoded lines, 998-octet RFC 5322 lines):
+// a filler line of each length in hxLongLens followed by n symbolic bytes.
+func HarnessC01LongLine() {
+	n := svParam("n", 1)
+	L := hxLongLens[svPick("line-length", svParam("lens", len(hxLongLens)))]
+	enc := hxEnc(svPick("enc", 3))
+	shape := svPick("shape", 3) // 0 single part, 1 body + attachment (content in the body), 2 body + attachment (content in the file)
+	if shape == 2 && enc == EncodingQP {
+		return // quoted-printable is documented as ignored for files
+	}
+	content := make([]byte, 0, L+n+16)
+	for i := 0; i < L; i++ {
+		content = append(content, byte('a'+i%26))
+	}
+	content = append(content, svBytes("c", n)...)
+	content = append(content, []byte("\r\nsecond line\r\n")...)
+	if enc == EncodingQP {
+		hxAssumeText(content)
+	}
+	other := []byte("other leaf\r\n")
+	var specs []hxLeafSpec
+	menc, fenc := enc, EncodingB64
+	switch shape {
+	case 0:
+		specs = []hxLeafSpec{{kind: 0, mtype: string(hxPartType[0]), enc: menc, content: content}}
+	case 1:
+		specs = []hxLeafSpec{{kind: 0, mtype: string(hxPartType[0]), enc: menc, content: content},
+			{kind: 2, mtype: "application/octet-stream", name: "a.bin", enc: fenc, content: other}}
+	case 2:
+		menc, fenc = EncodingQP, enc
+		specs = []hxLeafSpec{{kind: 0, mtype: string(hxPartType[0]), enc: menc, content: other},
+			{kind: 2, mtype: "application/octet-stream", name: "a.bin", enc: fenc, content: content}}
+	}
+	m := hxBuildC01(specs, menc, 0, false, "")
+	root := hxRenderParse(m)
+	svReach("rendered")
+	hxCheckTree(root, specs)
+}
